@@ -79,6 +79,12 @@ ModeOK(prog, mode) ==
   IF mode = "app" THEN "LsigArg" \notin ks
   ELSE ks \cap AppOnlyKinds = {} /\ \A g \in AppOnlyGlobals : ("Global:" \o g) \notin ks
 
+\* PyTeal documents that ScratchVar (by-reference) parameters are not allowed in recursive subroutines
+InCycle(prog, r) == LET cs == Callees(BodyOf(prog, r)) IN cs # {} /\ r \in ReachFrom(prog, cs)
+NoRefRecursion(prog) ==
+  \A r \in Routines(prog) \ {0} :
+     (\E j \in 1..Len(prog.rt[r].pk) : prog.rt[r].pk[j] = "r") => ~InCycle(prog, r)
+
 Accepts(prog, version, mode) ==
-  version >= ProgMinV(prog) /\ version <= 10 /\ ModeOK(prog, mode) /\ ~MustReject(prog)
+  version >= ProgMinV(prog) /\ version <= 10 /\ ModeOK(prog, mode) /\ ~MustReject(prog) /\ NoRefRecursion(prog)
 =============================================================================
